@@ -12,6 +12,10 @@ class Ext:
     type_name = "ext"
 
     def py_getattr(self, I, name):
+        if self.type_name.startswith("ndarray"):
+            import numpy
+            if hasattr(numpy.ndarray, name):       # the real type has it, the model does not: out of reach, not an error
+                raise Unsupported(f"{self.type_name}.{name}")
         raise PyExc("AttributeError", (f"{self.type_name} has no attribute {name}",))
 
     def py_setattr(self, I, name, value):
@@ -57,12 +61,13 @@ class Ext:
 class Builtin(Ext):
     type_name = "builtin"
 
-    def __init__(self, name, fn):
+    def __init__(self, name, fn, lenient=False):
         self.name = name
         self.fn = fn
+        self.lenient = lenient          # a contract stub that deliberately accepts and ignores any keyword argument
 
     def py_call(self, I, args, kwargs):
-        if kwargs and self.name.startswith(("np.", "ndarray.", "rng.")) and not _reads_kwargs(self.fn):
+        if kwargs and not self.lenient and not _reads_kwargs(self.fn):
             # a model that never looks at its keyword arguments would silently ignore axis=, dtype=, out=, ...: refuse instead
             raise Unsupported(f"{self.name}: keyword argument(s) {sorted(kwargs)} not modelled")
         return self.fn(I, args, kwargs)
